@@ -76,6 +76,7 @@ func C05(c *Ctx) {
 		c.Inconclusive("%v", err)
 		return
 	}
+	specs = g.Specs
 	N := 4
 	if c.Thorough() {
 		N = 6
